@@ -71,9 +71,12 @@ type tailBuf struct {
 
 func (t *tailBuf) Write(p []byte) (int, error) {
 	t.mu.Lock()
-	t.buf = append(t.buf, p...)
-	if len(t.buf) > 1<<17 {
-		t.buf = t.buf[len(t.buf)-(1<<16):]
+	// the panic message and the panicking goroutine come first: keep the head
+	if room := 1<<17 - len(t.buf); room > 0 {
+		if len(p) < room {
+			room = len(p)
+		}
+		t.buf = append(t.buf, p[:room]...)
 	}
 	t.mu.Unlock()
 	return len(p), nil
@@ -89,7 +92,7 @@ func runOne(workBase string, sc *scenario, guard time.Duration) *outcome {
 	seqMu.Unlock()
 	b, _ := json.Marshal(sc)
 	cmd := exec.Command(os.Args[0], "worker")
-	cmd.Env = append(os.Environ(), "C13_SCENARIO="+string(b), "C13_DIR="+dir, "GOMAXPROCS=2", "GOTRACEBACK=all")
+	cmd.Env = append(os.Environ(), "C13_SCENARIO="+string(b), "C13_DIR="+dir, "GOMAXPROCS=2")
 	var so bytes.Buffer
 	se := &tailBuf{}
 	cmd.Stdout = &so
@@ -221,6 +224,10 @@ func classify(o *outcome) *candidate {
 		return &candidate{sig: map[string]string{"kind": "crash", "site": site, "via": via, "tamper": tam},
 			detail: fmt.Sprintf("the syncing process died in scenario %s: %s (innermost repository frame %s, goroutine %s)", o.sc, o.panicLine, site, via)}
 	}
+	if o.res != nil && (o.res.Outcome == "stall" || o.res.Outcome == "cap") && o.res.PoolLocked {
+		return &candidate{sig: map[string]string{"kind": "liveness-deadlock", "tamper": tam, "site": "blockchain.BlockPool.mtx"},
+			detail: fmt.Sprintf("scenario %s: the node stopped applying blocks and the block pool's mutex is held forever (store height %d, applied %v)", o.sc, o.res.StoreHeight, o.res.Applied)}
+	}
 	if o.res != nil && o.res.Outcome == "stall" {
 		return &candidate{sig: map[string]string{"kind": "liveness-stall", "tamper": tam, "site": "blockchain.BlockPool"},
 			detail: fmt.Sprintf("scenario %s: an honest peer serving the whole chain stayed connected (reconnecting when dropped), but the node applied no block for the stall window and never caught up (store height %d, applied %v, peers known to the pool %v)", o.sc, o.res.StoreHeight, o.res.Applied, o.res.PoolPeers)}
@@ -264,6 +271,14 @@ func rangesFor(kind string, h int64) []rng {
 	var out []rng
 	seen := map[[2]int64]bool{}
 	for _, r := range cand {
+		// while responses are held the pool is at height 1: a pool whose peers all report
+		// height 1 counts as caught up, so no peer ever reports less than 2
+		if r.a == 2 {
+			continue
+		}
+		if r.b < 2 {
+			r.b = 2
+		}
 		if !seen[[2]int64{r.a, r.b}] {
 			seen[[2]int64{r.a, r.b}] = true
 			out = append(out, r)
@@ -352,6 +367,7 @@ type checker struct {
 	evals     int
 	reruns    int
 	retries   int
+	peerTimeout int
 	classes   *core.Counter
 	outcomes  *core.Counter
 	kindsSeen *core.Counter
@@ -365,6 +381,9 @@ type checker struct {
 
 func (ck *checker) exec(sc *scenario) *outcome {
 	var o *outcome
+	if sc.PeerTimeoutS == 0 && ck.peerTimeout > peerTimeoutS {
+		sc.PeerTimeoutS = ck.peerTimeout
+	}
 	for attempt := 0; attempt < 5; attempt++ {
 		o = runOne(ck.workBase, sc, ck.guard)
 		if o.res != nil && o.res.Outcome == "harness-invalid" {
@@ -553,18 +572,41 @@ func main() {
 		core.Fatal("cannot build the source chain: %v", err)
 	}
 
-	// determinism / sanity: the all-honest execution twice
+	// sanity / determinism / calibration: the all-honest execution twice.  An all-honest
+	// execution that does not catch up is judged like every other execution (liveness);
+	// only a different source chain or two different end states are internal errors.
+	ck.peerTimeout = peerTimeoutS
 	var base [2]*outcome
+	var rel int64
+	clean := 0
 	for i := range base {
-		base[i] = ck.exec(baseline(perms3[0], 2))
+		bs := baseline(perms3[0], 2)
+		bs.ID = -1 - i
+		base[i] = ck.exec(bs)
 		r := base[i].res
-		if r == nil || r.Outcome != "caught-up" || len(r.Violations) > 0 || r.StoreHeight != chainLen-1 || r.ChainDigest != c.digest {
-			core.Fatal("the all-honest baseline execution did not catch up cleanly: %+v stderr=%s", r, base[i].stderr)
+		if r != nil && r.ChainDigest != c.digest {
+			core.Fatal("a worker built a different source chain (%s vs %s)", r.ChainDigest, c.digest)
 		}
+		if r != nil && r.Outcome == "caught-up" && len(r.Violations) == 0 && r.StoreHeight == chainLen-1 {
+			clean++
+			if r.ReleaseMs > rel {
+				rel = r.ReleaseMs
+			}
+		}
+		ck.handle(base[i])
 	}
-	if base[0].res.FinalDigest != base[1].res.FinalDigest {
+	if clean == 2 && base[0].res.FinalDigest != base[1].res.FinalDigest {
 		core.Fatal("two all-honest executions ended in different states: %s vs %s", base[0].res.FinalDigest, base[1].res.FinalDigest)
 	}
+	// calibration: on a slow (shared, loaded) machine the pool's peer timeout is scaled up so
+	// that peers whose responses are held during the set-up phases do not time out
+	if t := int((rel*10 + 999) / 1000); t > ck.peerTimeout {
+		ck.peerTimeout = t
+	}
+	if ck.peerTimeout > 30 {
+		ck.peerTimeout = 30
+	}
+	ck.guard = time.Duration(4*(30+4*ck.peerTimeout)+60) * time.Second
 
 	var scs []*scenario
 	total := 0
@@ -610,7 +652,7 @@ func main() {
 	}
 	os.RemoveAll(workBase)
 	run.Finish(core.Coverage{
-		"evaluations":         ck.evals + 2,
+		"evaluations":         ck.evals,
 		"confirmation_reruns": ck.reruns,
 		"harness_retries":     ck.retries,
 		"scenarios_planned":   total,
@@ -628,7 +670,8 @@ func main() {
 		"median_wall_ms":        medWall,
 		"max_wall_ms":           maxWall,
 		"source_chain":          map[string]interface{}{"blocks": chainLen, "txs_at": []int{2, 5}, "validator_set_change_at": changeHeight, "powers_before": genesisPowers, "powers_after": "2,2,1,4 + new validator 3 (total 12)", "digest": c.digest},
-		"pool_peer_timeout_s":   peerTimeoutS,
+		"pool_peer_timeout_s":   ck.peerTimeout,
+		"calibration_release_ms": rel,
 		"bounds":                map[string]int{"chain_length": chainLen, "heights_synced": chainLen - 1, "serving_peers_max": 3},
 	}, []string{
 		"signatures of validators cannot be forged by non-validators; fewer than 1/3... more precisely: no set of validators holding more than 2/3 of the power of a height signs two different blocks for it",
